@@ -20,7 +20,8 @@ RULE = (
     "compute() under 2-3 schedulers drawn from synchronous, threads x {1,2,4,16} and a seeded chaos executor (random "
     "per-task delays) must equal the in-memory result in values (bit-exact, exact-safe data), dims and order, coordinates "
     "and name; data chunked along the operated axis with an inner/outer position involved may be refused with "
-    "NotImplementedError only, and no other input may raise. Class = (family, op, shifts, which dims are chunked "
+    "NotImplementedError only, and no other input may raise; finally a second input (-2x+1) goes through the same call and "
+    "both lazy results are computed in one graph - each must equal its own in-memory result. Class = (family, op, shifts, which dims are chunked "
     "(core / other), chunk shape kind, scheduler kinds, refusable); non-trivial iff some dimension has more than one chunk."
 )
 REQUIRED_REACH = [
@@ -357,4 +358,29 @@ def run_case(ctx, desc):
         why = identical(v, eager)
         if why:
             ctx.violation("lazy-equals-eager", f"{opname} {shifts} chunks {chunks} scheduler {spec}: {why}")
+            return
+    # two lazy results of the same operation on *different* inputs, evaluated together in one graph (as the variables of a
+    # Dataset are): each must still be the in-memory result of its own input - task keys may not be shared between them
+    def other(x):
+        return (x * -2 + 1).assign_coords(x.coords).rename(x.name)
+
+    data2 = {k: other(v) for k, v in data.items()} if isinstance(data, dict) else other(data)
+    lazy2 = {k: lazify(v) for k, v in data2.items()} if isinstance(data2, dict) else lazify(data2)
+    try:
+        eager2 = fn(data2)
+        r2 = fn(lazy2)
+    except Exception as e:
+        ctx.count("joint_second_input_raised_" + type(e).__name__)
+        return
+    spec = desc["scheds"][0]
+    ctx.judged(("joint-compute", fam, opname, "core-chunked" if core_chunked else "core-whole"), bool(chunked))
+    try:
+        v1, v2 = dask.compute(r, r2, **chaos.scheduler(spec))
+    except Exception as e:
+        ctx.violation("compute-succeeds", f"{opname} {shifts} chunks {chunks}: joint compute of two results raised {type(e).__name__}: {str(e)[:250]}")
+        return
+    for nm, vv, ee in (("first", v1, eager), ("second", v2, eager2)):
+        why = identical(vv, ee)
+        if why:
+            ctx.violation("lazy-equals-eager", f"{opname} {shifts} chunks {chunks}: two lazy results computed together, the {nm} is not the in-memory result of its input: {why}")
             return
